@@ -1145,3 +1145,28 @@ CASES += [
     dict(name="bb6-relaxed-case-weight-crossed", file=RB, rule="BB", props=["C12"], expect="bb_ub:BB6",
          old="""                            let lhs = *w_l * low;""", new="""                            let lhs = *w_h * low;"""),
 ]
+
+CASES += [
+    dict(name="sr-sdd-row-index-before-children", file="src/serialize/ser_sdd.rs", rule="SR", props=["C17"], expect="SDDSerializer::serialize_helper:row-index",
+         old="""            SddPtr::Compl(or) | SddPtr::Reg(or) => {
+                let o: Vec<SDDAnd> = or""",
+         new="""            SddPtr::Compl(or) | SddPtr::Reg(or) => {
+                let index = nodes.len();
+                let o: Vec<SDDAnd> = or""",
+         more=[("src/serialize/ser_sdd.rs", """                nodes.push(SDDOr(o));
+                let index = nodes.len() - 1;""", """                nodes.push(SDDOr(o));""")]),
+    dict(name="sr-bdd-row-index-len-before-push-ok", file="src/serialize/ser_bdd.rs", rule="SR", props=["C17", "C19"], expect=None,
+         old="""dummy-anchor-not-present""", new="""x"""),
+    dict(name="gl11-sdd-ite-stores-negated", file=SB, rule="GL", props=["C03", "C16"], expect="ite:GL11",
+         old="""        self.ite_cache_insert(ite, r, hash);""",
+         new="""        self.ite_cache_insert(ite, if ite.is_compl_choice() { r.neg() } else { r }, hash);"""),
+]
+CASES = [c for c in CASES if c["name"] != "sr-bdd-row-index-len-before-push-ok"]
+
+CASES += [
+    dict(name="sr-bdd-row-index-read-before-push-ok", file="src/serialize/ser_bdd.rs", rule="SR", props=["C17", "C19"], expect=None,
+         old="""                nodes.push(new_node);
+                let index = nodes.len() - 1;""",
+         new="""                let index = nodes.len();
+                nodes.push(new_node);"""),
+]
